@@ -69,9 +69,10 @@ Definition status_count (m : mask) (st : status) : nat :=
 (** What the work-group carries: len(wg.Wavefronts), co.WFSgprCount,
     co.WIVgprCount, co.GroupSegmentByteSize (the statically declared LDS), and
     [d_dyn] = wg.Packet.GroupSegmentSize, the LDS size the dispatch packet asks
-    for (it includes dynamically sized LDS).  ReserveResourceForWG and
-    FreeResourcesForWG read the first four only: the command processor
-    accounts for the static LDS size on both paths. *)
+    for (static + dynamically sized LDS; the driver sets it, the compute unit
+    allocates it).  ReserveResourceForWG and FreeResourcesForWG account for
+    [lds_bytes] = the larger of the two on both paths (repaired code; the pinned
+    code read the static size only). *)
 Record demand := mkDemand { d_nwf : nat; d_sgpr : N; d_vgpr : N; d_lds : N; d_dyn : N }.
 
 (** ldsBytes (curesourceimpl.go): the LDS a work-group occupies is the size in
